@@ -23,8 +23,22 @@ _atom_cache = {}
 _FLAGMASK = re.I | re.S | re.A | re.U | re.M
 
 
+_atom_fast = {}
+
+
 def atom_set(node, flags):
     """Set of domain code points matched by a single-character node (tabulated from CPython itself)."""
+    fk = (id(node[1]), node[0], flags)
+    hit = _atom_fast.get(fk)
+    if hit is not None and hit[0] is node[1]:
+        return hit[1]
+    r = _atom_set(node, flags)
+    if not isinstance(node[1], int):
+        _atom_fast[fk] = (node[1], r)
+    return r
+
+
+def _atom_set(node, flags):
     key = (repr(node), flags & _FLAGMASK)
     r = _atom_cache.get(key)
     if r is None:
@@ -38,6 +52,25 @@ def atom_set(node, flags):
 
 
 SINGLE = (K.LITERAL, K.NOT_LITERAL, K.IN, K.ANY)
+
+
+def _plain_nodes(sub):
+    """SubPattern -> plain nested lists/tuples (same shape as the sre parse tree, cheaper to walk)"""
+    out = []
+    for op, av in sub:
+        if op is K.SUBPATTERN:
+            av = (av[0], av[1], av[2], _plain_nodes(av[3]))
+        elif op is K.BRANCH:
+            av = (av[0], [_plain_nodes(a) for a in av[1]])
+        elif op in (K.MAX_REPEAT, K.MIN_REPEAT):
+            av = (av[0], av[1], _plain_nodes(av[2]))
+        elif op in (K.ASSERT, K.ASSERT_NOT):
+            lo_, hi_ = av[1].getwidth()
+            av = (av[0], _plain_nodes(av[1]), lo_, hi_)
+        out.append((op, av))
+    return out
+
+
 stats = {"sym_searches": 0, "sym_subs": 0}
 
 
@@ -110,6 +143,7 @@ class SymPattern:
         self.groupindex = dict(self.real.groupindex)
         self.tree = P.parse(self.pattern, self.flags)
         self.tflags = self.tree.state.flags
+        self.prog = _plain_nodes(self.tree)
         self.force_symbolic = False  # self-test switch: interpret even concrete subjects
         self._widths = {}
 
@@ -153,15 +187,14 @@ class SymPattern:
                     c = dict(c)
                     c[g] = (pos, p)
                 return nxt(p, c)
-            return self._m(list(sub), 0, s, pos, caps, after)
+            return self._m(sub, 0, s, pos, caps, after)
         if op is K.BRANCH:
             for alt in av[1]:
-                if self._m(list(alt), 0, s, pos, caps, nxt):
+                if self._m(alt, 0, s, pos, caps, nxt):
                     return True
             return False
         if op in (K.MAX_REPEAT, K.MIN_REPEAT):
             lo, hi, sub = av
-            sub = list(sub)
             greedy = op is K.MAX_REPEAT
             unbounded = hi is K.MAXREPEAT
 
@@ -181,20 +214,15 @@ class SymPattern:
                 return can_more and body(count, p, c)
             return after_iter(0, None, pos, caps)
         if op in (K.ASSERT, K.ASSERT_NOT):
-            direction, sub = av
-            sub = list(sub)
+            direction, sub, wlo, whi = av
             if direction > 0:
                 if op is K.ASSERT:
                     return self._m(sub, 0, s, pos, caps, lambda p, c: nxt(pos, c))
                 res = self._m(sub, 0, s, pos, caps, lambda p, c: True)
             else:
-                key = id(av)
-                w = self._widths.get(key)
-                if w is None:
-                    lo_, hi_ = P.SubPattern(self.tree.state, sub).getwidth()
-                    if lo_ != hi_:
-                        raise EngineError("variable-width look-behind")
-                    w = self._widths[key] = lo_
+                if wlo != whi:
+                    raise EngineError("variable-width look-behind")
+                w = wlo
                 st = pos - w
                 if op is K.ASSERT:
                     if st < 0:
@@ -216,7 +244,7 @@ class SymPattern:
                 return False
             out.append((p, c))
             return True
-        if self._m(list(self.tree), 0, s, start, {}, fin):
+        if self._m(self.prog, 0, s, start, {}, fin):
             p, c = out[0]
             return SymMatch(self, s, start, p, c)
         return None
